@@ -288,6 +288,76 @@ func extractC08(c *Ctx) {
 	}
 	c.Add("wsSendTrailerCalls", "List String", LeanStrList(seq), ssrc, "sendTrailer: deadline / mutex / write calls in statement order")
 
+	// the Send / trailer fence (Fence.lean): lock scope and flag order of send / finish / sendTrailer, and the
+	// epilogue of GRPCWebBridge.ServeHTTP, as token sequences in source order
+	fence := func(recv, name string) ([]string, string) {
+		fd := c.FuncDecl(file, recv, name)
+		if fd == nil {
+			return []string{"missing"}, file
+		}
+		var toks []string
+		var walk func(n ast.Node, pre string)
+		walk = func(n ast.Node, pre string) {
+			ast.Inspect(n, func(n ast.Node) bool {
+				switch x := n.(type) {
+				case *ast.DeferStmt:
+					walk(x.Call, "defer ")
+					return false
+				case *ast.GoStmt:
+					walk(x.Call, "go ")
+					return false
+				case *ast.IfStmt:
+					cond := strings.ReplaceAll(c.Src(x.Cond), " ", "")
+					if i := strings.LastIndex(cond, "."); i >= 0 && (strings.HasSuffix(cond, ".finished") || strings.HasSuffix(cond, ".sentMD")) {
+						neg := ""
+						if strings.HasPrefix(cond, "!") {
+							neg = "!"
+						}
+						t := "if " + neg + cond[i+1:]
+						if len(x.Body.List) > 0 {
+							if _, ok := x.Body.List[len(x.Body.List)-1].(*ast.ReturnStmt); ok {
+								t += " return"
+							}
+						}
+						toks = append(toks, t)
+					}
+				case *ast.AssignStmt:
+					if len(x.Lhs) == 1 && len(x.Rhs) == 1 {
+						if sel, ok := x.Lhs[0].(*ast.SelectorExpr); ok && (sel.Sel.Name == "finished" || sel.Sel.Name == "sentMD") {
+							toks = append(toks, sel.Sel.Name+"="+c.Src(x.Rhs[0]))
+						}
+					}
+				case *ast.CallExpr:
+					nm := ""
+					switch f := x.Fun.(type) {
+					case *ast.SelectorExpr:
+						nm = f.Sel.Name
+					case *ast.Ident:
+						nm = f.Name
+					}
+					switch nm {
+					case "Lock", "Unlock", "Write", "WriteMessage", "Forward", "finish", "writeTrailerWithStatus", "sendTrailer", "SetDeadline", "closeGracefully", "WriteClose":
+						toks = append(toks, pre+nm)
+						pre = ""
+					}
+				}
+				return true
+			})
+		}
+		walk(fd.Body, "")
+		return toks, c.Pos(fd)
+	}
+	for _, f := range [][3]string{
+		{"grpcwebFenceHTTPSend", "gRPCWebStream", "send"},
+		{"grpcwebFenceHTTPFinish", "gRPCWebStream", "finish"},
+		{"grpcwebFenceHTTPServe", "GRPCWebBridge", "ServeHTTP"},
+		{"grpcwebFenceWSSend", "gRPCWebSocketStream", "send"},
+		{"grpcwebFenceWSTrailer", "gRPCWebSocketStream", "sendTrailer"},
+	} {
+		toks, pos := fence(f[1], f[2])
+		c.Add(f[0], "List String", LeanStrList(toks), pos, f[1]+"."+f[2]+": mutex / finished / sentMD / write tokens in source order")
+	}
+
 	// always HTTP 200: no WriteHeader call anywhere in the gRPC-Web HTTP path
 	wh := 0
 	for _, fn := range [][2]string{{"GRPCWebBridge", "ServeHTTP"}, {"gRPCWebStream", "send"}, {"gRPCWebStream", "SetHeader"}, {"", "writeTrailerWithStatus"}} {
